@@ -6,8 +6,16 @@
  *          the bit, but testing it with the compare of another type class gives a different answer: char 0x80, a long and a
  *          pointer with only high bits set, 0.25f, 0.5 / -0.0, 0.5L)
  * End states of one run: 0 returned, 2 event budget exhausted, 3 tape exhausted, 4 watchdog (no progress), 5 signal,
- * 6 interpreter step limit (silent loop: no events are produced any more; such a run is not judged).
+ * 6 interpreter step limit (silent loop: no events are produced any more; such a run is not judged),
+ * 7 undefined: the abstract machine evaluates a trapping operand while it is invalid (such a run is not judged).
+ *
+ * Trapping operands (evaluation observable only by a trap): every tape read sets the trap state to the LAST bit b read:
+ *   gp<p>  -> a valid int holding p if b == p, else a null pointer                          (*gp1, *gp0)
+ *   gi<p>  -> index of the element of ga holding p if b == p, else an index into the PROT_NONE page after ga (ga[gi1], ga[gi0])
+ *   gd<p>  -> 3 resp. 6 if b == p, else 0                                                   (6 / gd1 == 2, 6 / gd0 == 1)
+ * Before the first tape read of a run both polarities are invalid.  gnull is always null, gbad always out of range, gz is 0.
  */
+#include <sys/mman.h>
 #include <stdio.h>
 #include <stdlib.h>
 #include <string.h>
@@ -18,7 +26,7 @@
 
 #define BUDGET 200
 #define MAXSTEPS 20000
-enum { ST_RET = 0, ST_BUDGET = 2, ST_TAPE = 3, ST_HANG = 4, ST_SIGNAL = 5, ST_SILENT = 6 };
+enum { ST_RET = 0, ST_BUDGET = 2, ST_TAPE = 3, ST_HANG = 4, ST_SIGNAL = 5, ST_SILENT = 6, ST_UNDEF = 7 };
 
 typedef struct { int n, end; int ev[BUDGET + 2]; } Trace;
 static Trace *cur;
@@ -26,14 +34,30 @@ static sigjmp_buf out_jb;
 static int tape[64], tlen, tpos;
 static volatile int in_run;
 
+int *gp1, *gp0, *ga, *gnull; int gi1, gi0, gd1, gd0, gz, gbad = 1 << 20, gsink;
+static int g_one = 1, g_zero = 0, last_bit = -1;
+static void trapstate(int b) {
+  last_bit = b;
+  gp1 = b == 1 ? &g_one : 0;     gp0 = b == 0 ? &g_zero : 0;
+  gi1 = b == 1 ? 1 : 8 + 512;    gi0 = b == 0 ? 0 : 8 + 768;
+  gd1 = b == 1 ? 3 : 0;          gd0 = b == 0 ? 6 : 0;
+}
+static void trap_init(void) {
+  long pg = sysconf(_SC_PAGESIZE);
+  char *m = mmap(0, 3 * pg, PROT_READ | PROT_WRITE, MAP_PRIVATE | MAP_ANONYMOUS, -1, 0);
+  if (m == MAP_FAILED || mprotect(m + pg, 2 * pg, PROT_NONE)) { fprintf(stderr, "trap_init: no guard pages\n"); exit(72); }
+  ga = (int *)(m + pg) - 8;        /* ga[0..7] are the last ints of a mapped page; ga[8..] is unmapped */
+  ga[0] = 0; ga[1] = 1;
+  trapstate(-1);
+}
 static void rec(int e) { if (cur->n >= BUDGET) siglongjmp(out_jb, ST_BUDGET); cur->ev[cur->n++] = e; }
 int T(int k) { rec(k); return k; }
 int Z(int k) { rec(k); return 0; }
-int C(void) { if (tpos >= tlen) siglongjmp(out_jb, ST_TAPE); int b = tape[tpos++]; rec(1000 + b); return b; }
-int C2(void) { if (tpos + 2 > tlen) siglongjmp(out_jb, ST_TAPE); int v = tape[tpos] * 2 + tape[tpos + 1]; tpos += 2; rec(1010 + v); return v; }
-int SEL(int n) { if (tpos + 2 > tlen) siglongjmp(out_jb, ST_TAPE); int v = (tape[tpos] * 2 + tape[tpos + 1]) % n; tpos += 2; rec(1020 + v); return v; }
+int C(void) { if (tpos >= tlen) siglongjmp(out_jb, ST_TAPE); int b = tape[tpos++]; rec(1000 + b); trapstate(b); return b; }
+int C2(void) { if (tpos + 2 > tlen) siglongjmp(out_jb, ST_TAPE); int v = tape[tpos] * 2 + tape[tpos + 1]; tpos += 2; rec(1010 + v); trapstate(v & 1); return v; }
+int SEL(int n) { if (tpos + 2 > tlen) siglongjmp(out_jb, ST_TAPE); int v = (tape[tpos] * 2 + tape[tpos + 1]) % n; trapstate(tape[tpos + 1]); tpos += 2; rec(1020 + v); return v; }
 void V(long x) { rec(2000 + (int)((unsigned long)x % 9973)); }
-static int bit(void) { if (tpos >= tlen) siglongjmp(out_jb, ST_TAPE); int b = tape[tpos++]; rec(1000 + b); return b; }
+static int bit(void) { if (tpos >= tlen) siglongjmp(out_jb, ST_TAPE); int b = tape[tpos++]; rec(1000 + b); trapstate(b); return b; }
 #define CL_TRUE 0x300000000L
 #define CP_TRUE 0x700000000L
 char Cc(void) { return bit() ? -128 : 0; }
@@ -49,6 +73,7 @@ static void on_sig(int sig) {
 }
 static void rt_init(void) {
   signal(SIGSEGV, on_sig); signal(SIGBUS, on_sig); signal(SIGILL, on_sig); signal(SIGFPE, on_sig); signal(SIGVTALRM, on_sig);
+  trap_init();
 }
 static void watchdog(int on) {
   struct itimerval it = {{0, 0}, {0, on ? 250000 : 0}};   /* 250 ms of CPU time for all runs of one program (each run <= 200 events, microseconds) */
@@ -58,7 +83,7 @@ static void watchdog(int on) {
 /* a defective twin may leave values on the x87 stack (long double operands): start every run from a clean FPU */
 static void fpu_reset(void) { __asm__ volatile("fninit"); }
 static void run_fn(void (*fn)(void), Trace *t) {
-  cur = t; t->n = 0; tpos = 0; fpu_reset();
+  cur = t; t->n = 0; tpos = 0; fpu_reset(); trapstate(-1);
   int st = sigsetjmp(out_jb, 1);
   if (st == 0) { in_run = 1; fn(); st = ST_RET; }
   in_run = 0;
@@ -71,7 +96,8 @@ static void show(const Trace *t) { for (int i = 0; i < t->n; i++) printf("%s%d",
 /* ---------------- reference interpreter ---------------- */
 typedef struct { short kind, a, b; short c[4]; unsigned lab; } Nd;
 enum { S_EXPR = 1, S_V, S_EMPTY, S_BREAK, S_CONT, S_RET, S_GOTO, S_CGOTO, S_IF, S_WHILE, S_DO, S_FOR, S_BLOCK, S_LABEL, S_SWITCH, S_CASE,
-       E_C = 32, E_C2, E_T, E_Z, E_AND, E_OR, E_COND, E_ELVIS, E_COMMA, E_NOT, E_STMT, E_CC, E_CL, E_CF, E_CD, E_CLD, E_CP };
+       E_C = 32, E_C2, E_T, E_Z, E_AND, E_OR, E_COND, E_ELVIS, E_COMMA, E_NOT, E_STMT, E_CC, E_CL, E_CF, E_CD, E_CLD, E_CP, E_TRAP,
+       S_TRAP = 17 };
 enum { R_NORMAL = 0, R_BRK, R_CONT, R_RETURN, R_GOTO };
 static const Nd *IN;
 static int i_seek, i_ab, i_target;
@@ -97,6 +123,9 @@ static Val i_eval(int n) {
   case E_CL: b = bit(); return mk(b ? CL_TRUE : 0, b);
   case E_CF: case E_CD: case E_CLD: b = bit(); return mk(0, b);          /* (long)0.25f == (long)0.5 == (long)-0.0 == 0 */
   case E_CP: b = bit(); return mk(b ? CP_TRUE : 0, b);
+  case E_TRAP:                       /* a = value when valid, b = polarity (-1: never traps) */
+    if (d->b >= 0 && d->b != last_bit) siglongjmp(out_jb, ST_UNDEF);
+    return mk(d->a, d->a != 0);
   case E_AND: v = i_eval(d->c[0]); if (i_ab || !v.t) return mk(0, 0); v = i_eval(d->c[1]); if (i_ab) return mk(0, 0); return mk(v.t, v.t);
   case E_OR: v = i_eval(d->c[0]); if (i_ab) return mk(0, 0); if (v.t) return mk(1, 1); v = i_eval(d->c[1]); if (i_ab) return mk(0, 0); return mk(v.t, v.t);
   case E_COND: v = i_eval(d->c[0]); if (i_ab) return mk(0, 0); return i_eval(v.t ? d->c[1] : d->c[2]);
@@ -139,6 +168,7 @@ static int i_exec(int n) {
   case S_EXPR: i_eval(d->c[0]); CHECKAB; return R_NORMAL;
   case S_V: v = i_eval(d->c[0]); CHECKAB; V(v.v); return R_NORMAL;
   case S_EMPTY: return R_NORMAL;
+  case S_TRAP: siglongjmp(out_jb, ST_UNDEF);
   case S_BREAK: return R_BRK;
   case S_CONT: return R_CONT;
   case S_RET: return R_RETURN;
@@ -197,7 +227,7 @@ static int i_exec(int n) {
 }
 
 static void run_interp(const Nd *nodes, int root, Trace *t) {
-  cur = t; t->n = 0; tpos = 0; IN = nodes; i_seek = 0; i_ab = 0; i_steps = 0; fpu_reset();
+  cur = t; t->n = 0; tpos = 0; IN = nodes; i_seek = 0; i_ab = 0; i_steps = 0; fpu_reset(); trapstate(-1);
   int st = sigsetjmp(out_jb, 1);
   if (st == 0) {
     in_run = 1;
@@ -212,7 +242,7 @@ static void run_interp(const Nd *nodes, int root, Trace *t) {
 
 /* ---------------- exploration of all tapes up to length L (every path once) ---------------- */
 typedef struct { int root; void (*cc)(void); void (*ref)(void); } Prog;
-static long n_runs, n_judged, n_silent, n_odis, n_paths, n_budget;
+static long n_runs, n_judged, n_silent, n_odis, n_paths, n_budget, n_undef;
 
 /* returns number of distinct complete traces seen (capped), reports V/O lines */
 static int explore(int idx, const Nd *nodes, const Prog *p, int L, int only_cc_report) {
@@ -227,6 +257,7 @@ static int explore(int idx, const Nd *nodes, const Prog *p, int L, int only_cc_r
     run_interp(nodes, p->root, &ti);
     n_runs++;
     if (ti.end == ST_SILENT) { n_silent++; continue; }
+    if (ti.end == ST_UNDEF) { n_undef++; continue; }      /* undefined behaviour on this tape (and on every extension of it) */
     run_fn(p->ref, &tr);
     if (!same(&ti, &tr)) {
       n_odis++;
